@@ -71,7 +71,7 @@ fn spec(t: Tier) -> Spec {
     Spec {
         id: "C16",
         level: "exploration",
-        rule: format!("components: literal x, literal é, escapes \\a \\b \\f \\n \\r \\t \\v \\\\ \\0 \\101, %%, and each directive of p f h H P d s n i U G m y Y l with flag (none, -) x width (none, 1, 9): 103 components. Every format of <= {all} components on every configuration (9 starting-point spellings: r ./r r/ r// r/. . ../w/r absolute link-to-dir x -P -H -L) and of <= {deep} components on all 27 configurations in thorough (quick: on one, r/ under -H), rendered by the real find over a sandbox with every entry kind (regular, setuid, hard links, empty/non-empty/sticky/setgid directories, fifo, socket, links to each, dangling, outside, at depth 0..2, owners 0/1/54321/2^31) in -sorted order, several formats per run as consecutive -printf actions; the whole output must equal, byte for byte, the independent renderer's (values from lstat()/stat()/readlink() of the selected record, padding left/right to the width, never truncated, literals verbatim, nothing appended). A mismatching batch is bisected to the format and to the component. -fprintf FILE FORMAT is run for every single-component format; wide-field slice: every directive and flag with widths 10, 16, 100, 255, 256, 1000 (and 65535 for %d, %y) followed by a literal, on every configuration. non-trivial = format containing a directive", all = t.pick(2, 2), deep = 3),
+        rule: format!("components: literal x, literal é, escapes \\a \\b \\f \\n \\r \\t \\v \\\\ \\0 \\101, %%, and each directive of p f h H P d s n i U G m y Y l with flag (none, -) x width (none, 1, 9): 103 components. Every format of <= {all} components on every configuration (9 starting-point spellings: r ./r r/ r// r/. . ../w/r absolute link-to-dir x -P -H -L) and of <= {deep} components on all 27 configurations in thorough (quick: on one, r/ under -H), rendered by the real find over a sandbox with every entry kind (regular, setuid, hard links, empty/non-empty/sticky/setgid directories, fifo, socket, links to each, dangling, outside, at depth 0..2, owners 0/1/54321/2^31) in -sorted order, several formats per run as consecutive -printf actions; the whole output must equal, byte for byte, the independent renderer's (values from lstat()/stat()/readlink() of the selected record, padding left/right to the width, never truncated, literals verbatim, nothing appended). A mismatching batch is bisected to the format and to the component. -fprintf FILE FORMAT is run for every single-component format; mount-point slice: %i %n %s %m %U %y on a tree with a tmpfs mounted inside it (the directory entry of a mount point carries the covered directory's inode number); wide-field slice: every directive and flag with widths 10, 16, 100, 255, 256, 1000 (and 65535 for %d, %y) followed by a literal, on every configuration. non-trivial = format containing a directive", all = t.pick(2, 2), deep = 3),
         bound: json!({"components": 103, "max_components_all_configs": 2, "max_components_deep_configs": 3, "configs": 27}),
         assumptions: vec![
             "not judged (entries filtered out of the run by -path): %Y and %l on a link the follow mode resolves, %Y on a dangling link; %h when the part before the last component is empty ('/x') or itself ends in a slash ('r//x')".into(),
@@ -477,6 +477,13 @@ fn run(ctx: &mut Ctx) {
             }
         }
     }
+    // a mount point inside the walk: %i (and the other status fields) come from the status record,
+    // not from the directory entry
+    job += 1;
+    if ctx.mine(job) {
+        mount_point_slice(ctx);
+        let _ = std::env::set_current_dir(&w);
+    }
     // verbatim copying of a multi-byte file name (no widths: char/byte padding is unspecified)
     job += 1;
     if ctx.mine(job) {
@@ -490,6 +497,48 @@ fn run(ctx: &mut Ctx) {
             ctx.rep.machinery(e.clone());
         }
     });
+}
+
+fn mount_point_slice(ctx: &mut Ctx) {
+    use std::ffi::CString;
+    let base = ctx.sbx.join("mp");
+    let _ = crate::sandbox::force_remove(&base);
+    std::fs::create_dir_all(base.join("r/mnt")).unwrap();
+    std::fs::write(base.join("r/plain"), b"abc").unwrap();
+    let target = CString::new(base.join("r/mnt").to_string_lossy().as_bytes()).unwrap();
+    let (src, fst) = (CString::new("none").unwrap(), CString::new("tmpfs").unwrap());
+    if unsafe { libc::mount(src.as_ptr(), target.as_ptr(), fst.as_ptr(), 0, std::ptr::null()) } != 0 {
+        ctx.rep.count("mount_point_slice_skipped_(mount_not_permitted)", 1);
+        return;
+    }
+    struct Unmount(CString);
+    impl Drop for Unmount {
+        fn drop(&mut self) {
+            unsafe { libc::umount2(self.0.as_ptr(), libc::MNT_DETACH) };
+        }
+    }
+    let _guard = Unmount(target);
+    std::fs::write(base.join("r/mnt/x"), b"").unwrap();
+    std::env::set_current_dir(&base).unwrap();
+    for follow in ["-P", "-L"] {
+        let got = run_find(&[follow, "r", "-sorted", "-printf", "%i %n %s %m %U %y %p\\n"]);
+        let mut want = String::new();
+        for (p, _) in lb::list_tree("r") {
+            let st = lb::lstat(Path::new(&p)).unwrap();
+            want.push_str(&format!("{} {} {} {:o} {} {} {}\n", st.ino, st.nlink, st.size, st.perm(), st.uid, st.kind(), p));
+        }
+        ctx.rep.evaluations += 1;
+        ctx.rep.nontrivial += 1;
+        ctx.rep.count("mount_point_runs", 1);
+        if got.out != want.as_bytes() || got.code != Ok(0) {
+            ctx.rep.violation(
+                "C16 output differs: status fields of a mount point (or below it) are not those of the status record",
+                format!("find {follow} r -sorted -printf '%i %n %s %m %U %y %p\\n' with a tmpfs mounted on r/mnt\n expected {want:?}\n actual   {:?} status {:?}", String::from_utf8_lossy(&got.out), got.code),
+                json!({"prop":"C16","mount":true}),
+            );
+        }
+    }
+    let _ = std::env::set_current_dir(&ctx.sbx);
 }
 
 fn fprintf_slice(ctx: &mut Ctx, cfg: &Cfg, comps: &[Comp]) {
@@ -541,6 +590,10 @@ fn unicode_slice(ctx: &mut Ctx, comps: &[Comp]) {
 }
 
 fn replay(case: &Value, ctx: &mut Ctx) -> Option<String> {
+    if case["mount"] == true {
+        mount_point_slice(ctx);
+        return ctx.rep.violations.keys().next().cloned();
+    }
     let w = build(ctx).ok()?;
     let comps = components();
     let root = case["root"].as_str()?.replace("<abs>/w", &w);
